@@ -82,8 +82,11 @@ type xdsClient struct {
 
 	// behaviour knobs
 	nackNext map[string]bool
-	// derive dependent subscriptions from root contents (EDS from CDS, RDS from LDS)
+	// derive dependent subscriptions from root contents (EDS from CDS, RDS and ECDS from LDS)
 	deriveDeps bool
+	// presentNonce: a delta client's first request of a type on a new stream carries the nonce of the old stream
+	// (state-of-the-world requests always carry the retained version and nonce)
+	presentNonce bool
 }
 
 func newXdsClient(name string, node *core.Node, delta bool, roots []string) *xdsClient {
@@ -174,6 +177,51 @@ func edsNamesFromClusters(held map[string]heldRes) map[string]struct{} {
 	return out
 }
 
+// ecdsNamesFromListeners: names of the extension configurations the listeners refer to by config discovery
+// (network filters, HTTP filters of connection managers, listener filters).
+func ecdsNamesFromListeners(held map[string]heldRes) map[string]struct{} {
+	out := map[string]struct{}{}
+	visit := func(fc *listener.FilterChain) {
+		if fc == nil {
+			return
+		}
+		for _, f := range fc.Filters {
+			if f.GetConfigDiscovery() != nil {
+				out[f.Name] = struct{}{}
+			}
+			tc := f.GetTypedConfig()
+			if tc == nil || !strings.HasSuffix(tc.TypeUrl, "HttpConnectionManager") {
+				continue
+			}
+			h := &hcm.HttpConnectionManager{}
+			if tc.UnmarshalTo(h) != nil {
+				continue
+			}
+			for _, hf := range h.HttpFilters {
+				if hf.GetConfigDiscovery() != nil {
+					out[hf.Name] = struct{}{}
+				}
+			}
+		}
+	}
+	for _, hr := range held {
+		l := &listener.Listener{}
+		if proto.Unmarshal(hr.bytes, l) != nil {
+			continue
+		}
+		for _, lf := range l.ListenerFilters {
+			if lf.GetConfigDiscovery() != nil {
+				out[lf.Name] = struct{}{}
+			}
+		}
+		for _, fc := range l.FilterChains {
+			visit(fc)
+		}
+		visit(l.DefaultFilterChain)
+	}
+	return out
+}
+
 func rdsNamesFromListeners(held map[string]heldRes) map[string]struct{} {
 	out := map[string]struct{}{}
 	visit := func(fc *listener.FilterChain) {
@@ -249,7 +297,9 @@ func (c *xdsClient) markAnswered(t string, names ...string) {
 func (c *xdsClient) unanswered() []string {
 	var out []string
 	for t, s := range c.sub {
-		if s.wildcard || !s.requested || s.rejected {
+		// extension configurations: istio sends nothing for a name that does not (or no longer) exist, and a
+		// listener the client still holds may refer to one, so no answer can be demanded per name
+		if s.wildcard || !s.requested || s.rejected || t == v3.ExtensionConfigurationType {
 			// after a rejection the property makes no claim about the subscription record (a NACK's
 			// resource names are not processed), so no answer is demanded until the next accepted response
 			continue
@@ -274,7 +324,7 @@ func (c *xdsClient) startStream(permuteDeps bool) {
 	}
 	order := append([]string(nil), c.roots...)
 	deps := []string{}
-	for _, t := range []string{v3.EndpointType, v3.RouteType} {
+	for _, t := range []string{v3.EndpointType, v3.RouteType, v3.ExtensionConfigurationType} {
 		if s := c.sub[t]; s != nil && len(s.names) > 0 {
 			deps = append(deps, t)
 		}
@@ -291,6 +341,9 @@ func (c *xdsClient) startStream(permuteDeps bool) {
 			}
 			if t == v3.ListenerType && contains(deps, v3.RouteType) {
 				o = append(o, v3.RouteType)
+			}
+			if t == v3.ListenerType && contains(deps, v3.ExtensionConfigurationType) {
+				o = append(o, v3.ExtensionConfigurationType)
 			}
 		}
 		order = o
@@ -383,6 +436,7 @@ func (c *xdsClient) onSotwResponse(step int, resp *discovery.DiscoveryResponse) 
 			c.resubscribe(v3.EndpointType, edsNamesFromClusters(s.held))
 		case v3.ListenerType:
 			c.resubscribe(v3.RouteType, rdsNamesFromListeners(s.held))
+			c.resubscribe(v3.ExtensionConfigurationType, ecdsNamesFromListeners(s.held))
 		}
 	}
 }
@@ -443,6 +497,9 @@ func (c *xdsClient) deltaInitial(t string) *discovery.DeltaDiscoveryRequest {
 			req.InitialResourceVersions[n] = h.version
 		}
 	}
+	if c.presentNonce {
+		req.ResponseNonce = s.nonce
+	}
 	s.requested = true
 	s.lastReq = sortedNames(s.names)
 	return req
@@ -482,6 +539,7 @@ func (c *xdsClient) onDeltaResponse(step int, resp *discovery.DeltaDiscoveryResp
 			c.resubscribe(v3.EndpointType, edsNamesFromClusters(s.held))
 		case v3.ListenerType:
 			c.resubscribe(v3.RouteType, rdsNamesFromListeners(s.held))
+			c.resubscribe(v3.ExtensionConfigurationType, ecdsNamesFromListeners(s.held))
 		}
 	}
 }
